@@ -146,6 +146,13 @@ class CallFrame(MemorySegment):
         # also for debugging purposes
         self.ret_addr = ret_addr
 
+        # the depth of the operand stack when the statement currently
+        # executing in this frame was started (only known when the
+        # module has debug info). when a run-time error is handed to
+        # an ON ERROR handler, the partial results of the failed
+        # statement above this depth are dropped.
+        self.stmt_stack_depth = None
+
     def set_temp_reference(self, idx, value):
         # get a non reference value, create a temporary cell for it,
         # and then store a reference to it in the given index.
@@ -228,6 +235,15 @@ class QvmCpu:
         self.trap_target = None
         self.error_handler_active = False
         self.trapped_addr = 0
+
+        # addresses of the first instruction of each statement (empty
+        # without debug info)
+        self.stmt_starts = set()
+        if self.module.debug_info is not None:
+            self.stmt_starts = set(
+                stmt.start_offset
+                for stmt in self.module.debug_info.stmts
+            )
 
         self.received_keyboard_interrupt = False
         signal.signal(signal.SIGINT, self.signal_handler)
@@ -318,6 +334,8 @@ class QvmCpu:
 
         self.prev_pc = self.pc
         instr_addr = self.pc
+        if instr_addr in self.stmt_starts and self.cur_frame is not None:
+            self.cur_frame.stmt_stack_depth = len(self.stack)
         instr, operands, size = self.get_current_instruction()
         self.pc += size
         if instr is None:
@@ -421,6 +439,13 @@ class QvmCpu:
 
         if not self.error_handler_active and \
            self.trap_target is not None:
+            # the error is going to be handled by the program: drop
+            # what the failed statement left on the operand stack, so
+            # that execution continues as if it had not been started
+            if self.cur_frame is not None and \
+               self.cur_frame.stmt_stack_depth is not None:
+                del self.stack[self.cur_frame.stmt_stack_depth:]
+
             if self.trap_target == 'next':
                 try:
                     self._exec_errresn()
